@@ -188,13 +188,16 @@ def Dict.firstBlock {V} (d : Dict V) (lo : Bound) : Option (Option Nat) :=
 above every separator -/
 def Dict.lastKeyBlock {V} (d : Dict V) (hi : Bound) : Option Nat := hi.key?.bind d.locateKey
 
+/-- `second_block_id`: the block after the first block (block 0 for an unbounded lower bound) -/
+def secondOf (firstId : Option Nat) : Nat := match firstId with | some f => f + 1 | none => 0
+
 /-- `last_block_id` after the limit: at most the block holding the ordinal
 `first_ordinal(block after the first block) + limit` -/
 def Dict.limitBlock {V} (d : Dict V) (firstId lastId : Option Nat) (limit : Option Nat) : Option Nat :=
   match limit with
   | none => lastId
   | some l =>
-    match d.blockAt (match firstId with | some f => f + 1 | none => 0) with
+    match d.blockAt (secondOf firstId) with
     | none => lastId
     | some b =>
       match lastId with
